@@ -378,6 +378,7 @@ func (t *Tokenizer) tokenizeBuffer(buf []byte, last bool) {
 			t.addToken(string(t.tmp))
 			t.line++
 			t.noff = off
+			i = 0
 			for i, b = range buf[off+1:] {
 				if spaceMap[b] != skipChar {
 					break
